@@ -108,7 +108,7 @@ theorem lex_posting_lineL (C : Classes) (hC : ClassesOk C = true) (L : Layout) (
   have hine : blanks L.indent ≠ [] := by
     intro h; have := congrArg List.length h; simp [blanks_length] at this; have := hL.1; omega
   have h1 := next_indent C hz.1 hz.2 ha1 hine (by intro c hc; rw [mem_blanks hc]; decide)
-    (by rw [hacct]; exact Stops.cons _ lb.1)
+    (by rw [hacct]; exact StopsL.cons _ lb.1)
   have e1 : tokAt .indent (blanks L.indent) z (blanks L.indent).length =
       tokP .indent (blanks L.indent) z.line z.before.length 0 := by
     simp [tokAt, tokP, Z.position, hz.2, Nat.add_comm]
